@@ -7,9 +7,9 @@ CONSTANTS
   Variant = "intended"
   MaxPert = 1
   Rounds = 20
-  OwnConds <- OCAll
+  OwnConds <- OCNone
   Presets <- BBoth
-  GenSels <- BBoth
+  GenSels <- BNo
   ScaleRevs <- BBoth
 INVARIANTS Emit
 CHECK_DEADLOCK FALSE
